@@ -147,8 +147,8 @@ package packetcache
 //@   requires size: len(buf) >= 1 && len(buf) <= 1504
 //@   requires separate: ref(buf) != ref(cache)
 //@   requires consistent: cache.received <= cache.expected
-//@   -- 2^32 packets without a statistics reset (about 50 days at 1000 packets/s) are not considered
-//@   requires counters-nowrap: cache.expected <= 0xFFFF0000
+//@   -- 2^32 packets without a statistics reset (about 50 days at 1000 packets/s) are not considered: assumed here, not required of callers
+//@   assume counters-nowrap: cache.expected <= 0xFFFF0000
 //@   modifies cache.last, cache.cycle, cache.lastValid, cache.expected, cache.received, cache.keyframe, cache.keyframeValid,
 //@        cache.bitmap, cache.tail, cache.entries[cache.tail], held(cache.mu)
 //@   ensures unlocked: !held(cache.mu)
